@@ -715,6 +715,7 @@ def explore_safety(repo: Repo, tier: str):
         items += [("asm:" + l, d) for l, d in _valid_programs(list(TOKENS), L)]
     c4 = [("asm:" + l, d) for l, d in _valid_programs(CALL_ALPHABET, 4)]
     items += c4 if tier == "thorough" else c4[::4]
+    items += position_family(40 if tier == "thorough" else 25)
     jobs = min(int(os.environ.get("SA_JOBS", "16")), os.cpu_count() or 1)
     chunks = [items[i::jobs] for i in range(jobs)]
 
@@ -738,6 +739,24 @@ def explore_safety(repo: Repo, tier: str):
                 c, m = found.get(key_, (0, msg))
                 found[key_] = (c + 1, m)
     return found, n
+
+
+def position_family(n_max: int):
+    """Findings that quote a position: a second PROTO as the n-th opcode, and a dangerous call as the n-th statement, n = 2..n_max
+    (messages built from ordinal / index tables must exist for every position, not for the first few)."""
+    out = []
+    for n in range(2, n_max + 1):
+        m = n - 2  # opcodes between the two PROTOs
+        if m == 1:
+            fill = b"\x95" + b"\x00" * 8  # FRAME 0: one opcode, nothing on the stack
+        elif m % 2:
+            fill = b"(K\x011" + b"K\x010" * ((m - 3) // 2)  # MARK BININT1 POP_MARK + pairs
+        else:
+            fill = b"K\x010" * (m // 2)
+        out.append((f"a second PROTO as opcode #{n}", b"\x80\x02" + fill + b"\x80\x03K\x01."))
+    for n in (1, 2, 9, 10, 11, 12, 13, 19, 21, 22, 23, n_max):
+        out.append((f"os.system('id') as statement #{n}", b"\x80\x02" + b"ccollections\nOrderedDict\n)R0" * (n - 1) + b"cos\nsystem\n(S'id'\ntR."))
+    return out
 
 
 def report_safety(repo: Repo, rep, rule: str, tier: str):
